@@ -323,7 +323,7 @@ Lemma esds_core h r l rsv r' : bytes_ok r = true -> dec_esds h r = Ok ((l, rsv),
 Proof.
   intros Hok H. unfold dec_esds in H. apply pbind_ok in H. destruct H as (vf & r0 & Evf & H).
   destruct (rd_spec _ _ _ _ Hok Evf) as (-> & Hvf & Hok0). cbv beta zeta in H.
-  set (F := S (N.to_nat (h_size h))) in *.
+  set (F := S (N.to_nat (h_size h + 65536))) in *.
   destruct r0 as [|tag t]; [discriminate|].
   destruct (negb (tag =? 3)) eqn:E3; [discriminate|]. apply negb_false_iff, N.eqb_eq in E3. subst tag.
   destruct (sz_loop t 0) as [[[[nb size] raw] rA]| | |] eqn:Es; try discriminate.
